@@ -19,22 +19,22 @@ func bigDecRat(d osmomath.BigDec) *big.Rat { return new(big.Rat).SetFrac(d.BigIn
 
 // Bucket is one constant-liquidity segment the reference walk went through.
 type Bucket struct {
-	L          *big.Rat // active liquidity in the segment
-	SqrtFrom   *big.Rat
-	SqrtTo     *big.Rat
-	AmountIn   *big.Rat // net of the spread factor
-	Fee        *big.Rat // spread charge of the segment (in token-in units)
-	AmountOut  *big.Rat
-	CrossedTo  int64 // tick crossed at the end of the segment (valid if Crossed)
-	Crossed    bool
+	L         *big.Rat // active liquidity in the segment
+	SqrtFrom  *big.Rat
+	SqrtTo    *big.Rat
+	AmountIn  *big.Rat // net of the spread factor
+	Fee       *big.Rat // spread charge of the segment (in token-in units)
+	AmountOut *big.Rat
+	CrossedTo int64 // tick crossed at the end of the segment (valid if Crossed)
+	Crossed   bool
 }
 
 // RefResult is the exact piecewise constant-liquidity curve walk.
 type RefResult struct {
-	In, Out  *big.Rat // total paid in (incl. spread charge) and paid out
-	Buckets  []Bucket
-	Beta     *big.Rat // documented rounding allowance for this walk
-	Exhausted bool    // ran out of liquidity before the amount was consumed
+	In, Out   *big.Rat // total paid in (incl. spread charge) and paid out
+	Buckets   []Bucket
+	Beta      *big.Rat // documented rounding allowance for this walk
+	Exhausted bool     // ran out of liquidity before the amount was consumed
 }
 
 type tickNet struct {
